@@ -9,12 +9,16 @@
     model, state and time.  Vocabulary ([WF], [comp_holds], [rhs_spec]): Spec.v. *)
 From Coq Require Import ZArith List Bool.
 From MxlBase Require Import ListX.
-From Core Require Import Sort GenSortFacts Model Cache Query GenQueryFacts.
+From Core Require Import Sort GenSortFacts Model Cache Query QueryTC GenQueryFacts.
 From Core Require FnLib.
-From CoreP Require Import Spec ProofsStoich ProofsTop ProofsRhs ProofsUnique ProofsPartition ExModel.
+From CoreP Require Import Spec ProofsStoich ProofsTop ProofsRhs ProofsUnique ProofsPartition ExModel ProofsTC ExTime.
 Import ListNotations.
 
-Theorem C01_facts_pinned : gen_query_facts = mkQueryFacts true true true.
+(** the bodies of __call__, _get_right_hand_side, _get_args (Query.v) and -- added in the second deepening
+    round -- of the public wrappers get_args / get_fluxes / get_right_hand_side / get_stoichiometries /
+    get_initial_conditions and of the four time-course forms (QueryTC.v) are statement for statement the
+    modelled ones *)
+Theorem C01_facts_pinned : gen_query_facts = mkQueryFacts true true true true true.
 Proof. vm_compute. reflexivity. Qed.
 Print Assumptions C01_facts_pinned.
 
@@ -185,6 +189,121 @@ Theorem C01_static_partition :
     end.
 Proof. exact (static_partition gen_sort_facts gen_sc). Qed.
 Print Assumptions C01_static_partition.
+
+(** "every way of asking": leaving the state at its default ([variables=None]) means the resolved
+    initial conditions evaluated AT THE TIME GIVEN -- the table reports that time, the initial
+    conditions as the variables, and every flux / derived quantity / surrogate output as its function
+    of the values in the same table; fluxes and right-hand side read the same state and time *)
+Theorem C01_default_state_at_given_time :
+  forall fsem fsemN m c t tab,
+    WF m -> create_cache fsem fsemN gen_sort_facts m = Val c ->
+    get_args_pub fsem fsemN m c None t = Val tab ->
+    exists e,
+      get_args_raw fsem fsemN m c (c_init c) t = Val e
+      /\ lookup time_name e = Some t
+      /\ (forall x v, lookup x (c_init c) = Some v -> lookup x e = Some v)
+      /\ (forall nm cmp, In (nm, cmp) (containers m) -> comp_holds fsem fsemN nm cmp (env_of_dict (m_dat m) e))
+      /\ keys tab = arg_names m c true
+      /\ (forall k v, In (k, v) tab -> lookup k e = Some v)
+      /\ get_fluxes_pub fsem fsemN m c None t = get_fluxes fsem fsemN m c (c_init c) t
+      /\ get_rhs_pub fsem fsemN m c None t = get_rhs fsem fsemN m c (c_init c) t.
+Proof. exact default_state_at_given_time. Qed.
+Print Assumptions C01_default_state_at_given_time.
+
+(** a supplied state is a mapping from names to values: two association lists that bind the same
+    variables to the same values in ANY key order give the same table on every name and literally the
+    same answers from get_args, get_fluxes, get_right_hand_side and the time-course row format *)
+Theorem C01_state_key_order_irrelevant :
+  forall fsem fsemN m c vars vars' t e e',
+    WF m -> create_cache fsem fsemN gen_sort_facts m = Val c ->
+    NoDup (keys vars) -> NoDup (keys vars') -> incl (keys vars) (keys (m_var m)) ->
+    (forall k, lookup k vars' = lookup k vars) ->
+    get_args_raw fsem fsemN m c vars t = Val e ->
+    get_args_raw fsem fsemN m c vars' t = Val e' ->
+    (forall k, lookup k e' = lookup k e)
+    /\ get_args fsem fsemN m c vars' t = get_args fsem fsemN m c vars t
+    /\ get_fluxes fsem fsemN m c vars' t = get_fluxes fsem fsemN m c vars t
+    /\ get_rhs fsem fsemN m c vars' t = get_rhs fsem fsemN m c vars t
+    /\ get_args_notime fsem fsemN m c vars' t = get_args_notime fsem fsemN m c vars t.
+Proof. exact state_key_order_irrelevant. Qed.
+Print Assumptions C01_state_key_order_irrelevant.
+
+(** the time-course forms on a WHOLE frame (any number of rows, any time labels: repeated states at
+    different times, non-monotone times, repeated labels): the table has one row per time label, and
+    the row of label [t] is the single-state answer at the state and time of the LAST frame row
+    labelled [t] ([last_row]; for distinct labels: of that row) -- never a value carried over from
+    another row.  No hypothesis on the model: by construction of the row-wise evaluation. *)
+Theorem C01_time_course_rows_are_point_queries :
+  forall fsem fsemN m c rows,
+    (forall out, get_args_time_course fsem fsemN m c rows = Val out ->
+       NoDup (map fst out)
+       /\ forall t,
+         (In t (map fst rows) ->
+            exists s r, last_row t s rows /\ get_args_notime fsem fsemN m c s t = Val r /\ zlookup t out = Some r)
+         /\ (~ In t (map fst rows) -> zlookup t out = None))
+    /\ (forall out, get_fluxes_time_course fsem fsemN m c rows = Val out ->
+       NoDup (map fst out)
+       /\ forall t,
+         (In t (map fst rows) ->
+            exists s r, last_row t s rows /\ get_fluxes fsem fsemN m c s t = Val r /\ zlookup t out = Some r)
+         /\ (~ In t (map fst rows) -> zlookup t out = None)).
+Proof.
+  exact (fun fsem fsemN m c rows =>
+           conj (args_time_course_rows fsem fsemN m c rows) (fluxes_time_course_rows fsem fsemN m c rows)).
+Qed.
+Print Assumptions C01_time_course_rows_are_point_queries.
+
+(** ... and the right-hand-side table computed from that argument table holds, per label, the named
+    right-hand side at that row's own state and time (with [C01_time_course_form]: also for computed
+    coefficients that read the time, which the argument table does not carry) *)
+Theorem C01_rhs_time_course_rows_are_point_queries :
+  forall fsem fsemN m c rows out d,
+    WF m -> create_cache fsem fsemN gen_sort_facts m = Val c ->
+    (forall t s, In (t, s) rows -> incl (keys s) (keys (m_var m))) ->
+    get_args_time_course fsem fsemN m c rows = Val out ->
+    get_rhs_time_course fsem m c out = Val d ->
+    forall t,
+      (In t (map fst rows) ->
+         exists s dx, last_row t s rows /\ get_rhs fsem fsemN m c s t = Val dx /\ zlookup t d = Some dx)
+      /\ (~ In t (map fst rows) -> zlookup t d = None).
+Proof. exact rhs_time_course_rows. Qed.
+Print Assumptions C01_rhs_time_course_rows_are_point_queries.
+
+(** non-vacuity of the time-course statements: the model of ExTime.v (only a surrogate reads the time;
+    a derived quantity and a reaction sit downstream of its outputs) is well formed; a 4-row frame with a
+    plateau (the same state at t = 3 and t = 5), non-monotone labels, a repeated label (1) and permuted
+    key order evaluates; its tables have the labels 3, 5, 1; the plateau rows DIFFER (flux 12 = x + t,
+    reaction 9 = 2 x t); label 1 holds the answer for the last row labelled 1; the default state at
+    t = 2 reports time 2 *)
+Example C01_time_course_nonvacuous :
+  WF ex_time_model /\
+  exists c, create_cache FnLib.fsem FnLib.fsemN gen_sort_facts ex_time_model = Val c
+    /\ let s1 := [(3%N, 1%Z); (4%N, 2%Z)] in
+       let s2 := [(4%N, 1%Z); (3%N, 2%Z)] in
+       let rows := [(3%Z, s1); (5%Z, s1); (1%Z, s2); (1%Z, s1)] in
+       exists out fl d,
+         get_args_time_course FnLib.fsem FnLib.fsemN ex_time_model c rows = Val out
+         /\ get_fluxes_time_course FnLib.fsem FnLib.fsemN ex_time_model c rows = Val fl
+         /\ get_rhs_time_course FnLib.fsem ex_time_model c out = Val d
+         /\ map fst out = [3%Z; 5%Z; 1%Z] /\ map fst d = [3%Z; 5%Z; 1%Z]
+         /\ zlookup 3%Z fl = Some [(9%N, 6%Z); (12%N, 4%Z)]
+         /\ zlookup 5%Z fl = Some [(9%N, 10%Z); (12%N, 6%Z)]
+         /\ zlookup 3%Z d = Some [(3%N, (-4)%Z); (4%N, 6%Z)]
+         /\ zlookup 5%Z d = Some [(3%N, (-6)%Z); (4%N, 10%Z)]
+         /\ (exists dx, get_rhs FnLib.fsem FnLib.fsemN ex_time_model c s1 1%Z = Val dx /\ zlookup 1%Z d = Some dx)
+         /\ exists tab, get_args_pub FnLib.fsem FnLib.fsemN ex_time_model c None 2%Z = Val tab
+                        /\ lookup time_name tab = Some 2%Z /\ lookup 12%N tab = Some 3%Z.
+Proof.
+  split; [exact ex_time_model_WF|].
+  eexists. split; [vm_compute; reflexivity|]. cbv zeta.
+  eexists. eexists. eexists. split; [vm_compute; reflexivity|]. split; [vm_compute; reflexivity|].
+  split; [vm_compute; reflexivity|].
+  split; [vm_compute; reflexivity|]. split; [vm_compute; reflexivity|]. split; [vm_compute; reflexivity|].
+  split; [vm_compute; reflexivity|]. split; [vm_compute; reflexivity|]. split; [vm_compute; reflexivity|].
+  split; [eexists; split; vm_compute; reflexivity|].
+  eexists. split; [vm_compute; reflexivity|]. split; vm_compute; reflexivity.
+Qed.
+Print Assumptions C01_time_course_nonvacuous.
 
 (** non-vacuity: the model of ExModel.v (derived chain 6 -> 7 -> 8, derived 15 reading a data
     set, reaction 9 with a numeric and a computed coefficient, reaction 10 with a state-dependent
